@@ -110,6 +110,31 @@ def register(R):
         ],
         native=False,
     )
+    # canonical typing of numbered colours: the parser (Color.parse) types "color(n)" STANDARD below 16 and EIGHT_BIT from
+    # 16 up; every factory has to agree or equal-looking styles differ (C06)
+    R.contract(
+        "rich.color", "Color.from_ansi", serves=["C06", "C18"],
+        params={"number": "int"}, returns="Color", pure=True,
+        requires=["0 <= number and number <= 255"],
+        ensures=["result.number == number", "result.triplet is None",
+                 "iff(result.type == 1, number < 16)", "iff(result.type == 2, number >= 16)", "wf_color(result)"],
+    )
+    R.contract(
+        "rich.color_triplet", "ColorTriplet.hex", serves=["C06", "C18"],
+        params={"self": "ColorTriplet"}, returns="ostr", pure=True, ensures=[],
+        trusted="ColorTriplet.hex: only used as the display name of a colour; its text (format spec {:02x}) is outside the encoder, no property of it is assumed",
+    )
+    R.contract(
+        "rich.color", "Color.from_triplet", serves=["C06", "C18"],
+        params={"triplet": "ColorTriplet"}, returns="Color", pure=True,
+        requires=["wf_triplet(triplet)"],
+        ensures=["wf_color(result)", "result.type == 3", "result.triplet == triplet", "result.number is None"],
+    )
+    R.contract(
+        "rich.color", "Color.default", serves=["C06", "C18"],
+        params={}, returns="Color", pure=True,
+        ensures=["wf_color(result)", "result.type == 0", "result.triplet is None", "result.number is None"],
+    )
     R.lemma(
         "downgrade_idempotent", serves=["C18"],
         vars={"c": "Color", "s": "int"},
